@@ -35,12 +35,16 @@ def combos(deg):
     return [(t - j, j) for t in range(deg + 1) for j in range(t + 1)]
 
 
-def mk_trend(es, ns, deg, pdeg, coef, kind):
+def mk_trend(es, ns, deg, pdeg, coef, kind, s=1.0):
+    """s (a power of two, so everything stays exactly representable): common scale of the coordinates; the polynomial is c_ij (x/s)^i (y/s)^j."""
     cb = combos(deg)
+    if s != 1.0:
+        es, ns = [x * s for x in es], [y * s for y in ns]
+        coef = [c / s ** (i + j) for c, (i, j) in zip(coef, cb)]
     d = [float(sum(C.fq(c) * C.fq(x) ** i * C.fq(y) ** j for c, (i, j) in zip(coef, cb))) for x, y in zip(es, ns)]
     exact = all(C.fq(v) == sum(C.fq(c) * C.fq(x) ** i * C.fq(y) ** j for c, (i, j) in zip(coef, cb)) for v, x, y in zip(d, es, ns))
-    qe = [es[0] + 0.375, 0.5, -3.25, es[-1] * 2]
-    qn = [ns[0] - 0.125, -1.5, 2.0, ns[-1] * 2]
+    qe = [es[0] + 0.375 * s, 0.5 * s, -3.25 * s, es[-1] * 2]
+    qn = [ns[0] - 0.125 * s, -1.5 * s, 2.0 * s, ns[-1] * 2]
     return {"fn": "trend", "kind": kind, "args": [es, ns, deg, coef, d, qe, qn, exact],
             "op": f"trend_fit {C.enc(es)} {C.enc(ns)} {C.enc(d)} none {deg} {C.enc(qe)} {C.enc(qn)}"}
 
@@ -84,7 +88,7 @@ def generate(rng, tier):
     maxpts = 14 if tier == "quick" else 30
     cs = []
     for _ in range(n):
-        scale = rng.choice([1e-2, 1.0, 1.0, 10.0, 1e3, 1e6])
+        scale = rng.choice([1.25e-3, 1e-2, 1.0, 1.0, 10.0, 1e3, 1e6])      # extents 2e-2 (coordinates of order 1e-2) .. 1.6e7
         offset = rng.choice([0.0, 0.0, 16.0 * scale * rng.choice([1.0, 10.0, 1e3])])
         if rng.random() < 0.4:
             deg = rng.randint(0, 4)
@@ -92,7 +96,8 @@ def generate(rng, tier):
             npar = (deg + 1) * (deg + 2) // 2
             es, ns = pts(rng, npar + rng.randint(2, 8), rng.choice([0.125, 0.25]), 0.0)
             coef = [rng.randint(-16, 16) / 4.0 if (i + j) <= pdeg else 0.0 for (i, j) in combos(deg)]
-            cs.append(mk_trend(es, ns, deg, pdeg, coef, f"trend-{deg}-poly{pdeg}"))
+            e2 = rng.choice([-7, -3, 0, 0, 7, 17])       # coordinates of order 1e-2 .. 1e5 (the fit is scale-free by design: unit-variance columns)
+            cs.append(mk_trend(es, ns, deg, pdeg, coef, f"trend-{deg}-poly{pdeg}" + (f"-scale2^{e2}" if e2 else ""), 2.0 ** e2))
             continue
         npts = rng.randint(3, maxpts)
         es, ns = pts(rng, npts, scale, offset)
@@ -185,9 +190,12 @@ def compare(case, io, mo):
         if mo == "singular":
             return "amb"
         coef_m, pred_m = C.tofloat(mo[0]), C.tofloat(mo[1])
-        sc = max(1.0, max(abs(v) for v in coef_m))
-        for x, y in zip(r["coef"], coef_m):
-            if not (abs(x - y) <= 1e-6 * sc):
+        # coefficients are compared by what they contribute over the data's extent: c_ij * L^(i+j), L the largest |coordinate|
+        L = max(abs(v) for v in case["args"][0] + case["args"][1]) or 1.0
+        wts = [L ** (i + j) for (i, j) in combos(case["args"][2])]
+        sc = max(1.0, max(abs(v) * w for v, w in zip(coef_m, wts)))
+        for x, y, w in zip(r["coef"], coef_m, wts):
+            if not (abs(x - y) * w <= 1e-6 * sc):
                 return f"diff:coef {x} vs {y}"
         for x, y in zip(r["pred"], pred_m):
             if not (abs(x - y) <= 1e-6 * max(1.0, abs(y))):
@@ -226,12 +234,15 @@ def oracle(case, io):
         if not exact:
             return None
         jac = vd.Trend(deg).jacobian((np.array(es), np.array(ns)))
+        jac = jac / np.maximum(np.max(np.abs(jac), axis=0), 1e-300)      # (the fit is scale-free: conditioning is judged on unit-size columns)
         if np.linalg.matrix_rank(jac) < jac.shape[1] or np.linalg.cond(jac) > 1e9:
             return None      # points not unisolvent for this degree
         cb = combos(deg)
-        sc = max(1.0, max(abs(c) for c in coef))
+        L = max(abs(v) for v in es + ns) or 1.0
+        wts = [L ** (i + j) for (i, j) in cb]
+        sc = max(1.0, max(abs(c) * w for c, w in zip(coef, wts)))
         for k, (x, y) in enumerate(zip(r["coef"], coef)):
-            if not (abs(x - y) <= 1e-6 * sc):
+            if not (abs(x - y) * wts[k] <= 1e-6 * sc):
                 return f"Trend({deg}) fitted to a polynomial of degree <= {deg} returned coefficient {k} = {x}, polynomial has {y}"
         for x, qx, qy in zip(r["pred"], qe, qn):
             v = float(sum(C.fq(c) * C.fq(qx) ** i * C.fq(qy) ** j for c, (i, j) in zip(coef, cb)))
